@@ -430,7 +430,12 @@ def minimize_lbfgsb(
                 ),
             )
         else:
-            return checkpoint
+            # same state as the checkpoint, but with the actual termination reason
+            res = copy.copy(checkpoint)
+            res.message = istate.task_str
+            res.status = istate.warnflag
+            res.success = istate.is_success
+            return res
 
     # Compute the first gradient if no checkpoint provided
     if checkpoint is None:
